@@ -59,4 +59,7 @@ def run(tier="quick", seed=0, use_cache=True):
         {"rule": "ITER-FINI", "obligation": "i1, i2, i3 of bucket_merge reach finiSetIteration on the err path"},
         {"rule": "CMP-AFTER-COMMIT", "obligation": "no TEST_KEY_SET_OR after the descent in _BTree_set (1 known finding)"},
     ]
+    from ..rules import cmpmacro
+    cmpmacro.extend(res, use_cache, ("TEST_KEY_SET_OR",))
+    res.explanation += ' CMP-MACRO: the error branch of the key comparison macro is taken exactly when an exception is pending (COMPARE returns +1 when == raised).'
     return res
